@@ -56,7 +56,7 @@ static unsigned rnd(void){ rng ^= rng << 13; rng ^= rng >> 7; rng ^= rng << 17; 
 void vrt_default_opts(vrt_opts *o){
   memset(o, 0, sizeof *o);
   o->nworkers = 2; o->seed = 1; o->strategy = VRT_STRAT_RANDOM; o->pct_depth = 3; o->pct_len = 2000;
-  o->max_spin = 200000; o->watchdog_s = 20; o->vclock = 1; o->vclock_step_ns = 200000; o->out = "trace.ndjson";
+  o->max_spin = 200000; o->max_events = 400000; o->watchdog_s = 20; o->vclock = 1; o->vclock_step_ns = 200000; o->out = "trace.ndjson";
 }
 void vrt_opts_from_env(vrt_opts *o){
   char *s;
@@ -68,6 +68,7 @@ void vrt_opts_from_env(vrt_opts *o){
   if ((s = getenv("VRT_PCT_LEN"))) o->pct_len = atoi(s);
   if ((s = getenv("VRT_MAX_SPIN"))) o->max_spin = atol(s);
   if ((s = getenv("VRT_WATCHDOG"))) o->watchdog_s = atoi(s);
+  if ((s = getenv("VRT_MAX_EVENTS"))) o->max_events = atol(s);
   if ((s = getenv("VRT_VCLOCK"))) o->vclock = atoi(s);
   if ((s = getenv("VRT_VCLOCK_STEP"))) o->vclock_step_ns = atol(s);
   if ((s = getenv("VRT_OUT"))) o->out = s;
@@ -116,6 +117,7 @@ static int is_addr_arg(const char *name, int pos){
   return 0;
 }
 
+static void verdict(const char *what, int code);
 static void log_ev(const char *name, int n, va_list ap){
   int i; ev_t *e;
   if (nev == capev){ capev = capev ? capev * 2 : 1 << 16; evs = realloc(evs, capev * sizeof(ev_t)); }
@@ -123,6 +125,8 @@ static void log_ev(const char *name, int n, va_list ap){
   for (i = 0; i < e->n; i++) e->a[i] = va_arg(ap, long);
   nev++; nonprogress = 0; activity++;
   if (name[0] == 'S' && !strcmp(name, "SchedRun")) idle[me] = 0;
+  /* a run that never ends but keeps producing events (a retry loop that can never succeed) */
+  if (armed && started && O.max_events > 0 && nev > O.max_events){ started = 0; verdict("HANG", 5); }
 }
 /* "free recording": outside the serialized mode (initialisation, finalisation, plain pthreads) events are
    appended under a mutex; the mutex order is the recorded order */
